@@ -43,10 +43,10 @@ struct TemplateOracle {
         opt.test_block_validity = false;
         const uint64_t reserved = s.pick<uint64_t>({8000, 2000, 4000, 2001, 12000});
         if (reserved != 8000 || s.boolean()) opt.block_reserved_weight = reserved;
-        const unsigned wmode = s.range<unsigned>(0, 5);
+        const unsigned wmode = s.range<unsigned>(0, 7);
         uint64_t maxw = 4'000'000;
-        if (wmode == 1) maxw = reserved + s.range<uint64_t>(0, 6000);
-        else if (wmode == 2) maxw = reserved + uint64_t(pool_weight) * s.range<uint64_t>(1, 4) / 4 + s.range<uint64_t>(0, 2);
+        if (wmode == 1 || wmode == 5) maxw = reserved + s.range<uint64_t>(0, 6000);
+        else if (wmode == 2 || wmode == 6 || wmode == 7) maxw = reserved + uint64_t(pool_weight) * s.range<uint64_t>(1, 4) / 4 + s.range<uint64_t>(0, 2);
         else if (wmode == 3) maxw = s.range<uint64_t>(reserved, 4'000'000);
         else if (wmode == 4) maxw = reserved;
         maxw = std::min<uint64_t>(maxw, 4'000'000);
@@ -133,7 +133,7 @@ struct TemplateOracle {
         const size_t included = txs.size();
         const bool binding = included < snap.entries.size();
         if (included == 0) st.cls("template-empty"); else if (!binding) st.cls("template-all"); else st.cls("template-partial");
-        if (wmode == 1 || wmode == 2 || wmode == 4) st.cls("cfg-tight-weight");
+        if (wmode == 1 || wmode == 2 || wmode >= 4) st.cls("cfg-tight-weight");
         if (smode == 2 || smode == 4) st.cls("cfg-tight-sigops");
         if (fmode >= 2) st.cls("cfg-minfee");
         bool has_delta = false;
@@ -145,7 +145,7 @@ struct TemplateOracle {
         Note(st, "template@", where, " pool=", snap.entries.size(), " clusters=", nclusters, " maxw=", eff_max, " reserved=", eff_reserved, " minfee-mode=", fmode,
              " sigres=", sig_res, " -> txs=", included, " weight=", weight, " sigops=", sigops, " fees=", int64_t(fees));
 
-        if (s.chance(80)) {
+        if (s.chance(60) && !ms.sim().ledger.Known(mined->GetHash())) { // (an identical template may have been mined and invalidated earlier: not re-delivered)
             // mine it for real: ProcessNewBlock must accept it and it must become the tip
             ms.sim().Register(mined);
             const auto d = ms.sim().Deliver(mined);
